@@ -89,7 +89,9 @@ func (e *FnEnc) Encode() (err error) {
 			}
 		}
 		if !found {
-			return fmt.Errorf("%s: contract names loop %d but the function has %d loops", e.key, n, len(e.loops))
+			// the code's loop structure no longer matches the contract: the invariants of that loop cannot
+			// be placed, so the proof does not transfer; reported as a failed (structural) obligation
+			e.structural = append(e.structural, fmt.Sprintf("contract gives invariants for loop %d but the function now has %d loops: the inductive argument proved on the unchanged tree no longer applies to this code", n, len(e.loops)))
 		}
 	}
 	e.pass = 1
@@ -99,6 +101,9 @@ func (e *FnEnc) Encode() (err error) {
 	e.loops = saved
 	e.pass = 2
 	e.encodeBody()
+	for i, s := range e.structural {
+		e.obls = append(e.obls, &Obligation{Name: fmt.Sprintf("%s#contract-structure[%d]", e.key, i+1), Kind: "structure", Props: e.c.Props, Fn: e.key, Backend: "syntactic-scan", Status: "failed", Output: s, enc: e})
+	}
 	return nil
 }
 
@@ -1477,6 +1482,7 @@ func (e *FnEnc) frameObligations() {
 	if allowed == nil {
 		return // modifies *
 	}
+	e.allocClosureAxioms()
 	alloc0 := quoteSym("$alloc")
 	var names []string
 	for k := range e.exitState.heap {
